@@ -3,13 +3,18 @@ package main
 // C19: code can reach only the host functionality the embedder supplies.
 // Correspondence: random importer / globals / AllowGoStmt configurations and
 // programs in the abstract syntax of coq/model/ScopeM.v, rendered as Scriggo
-// source; every supplied function records its call. Sweep: the property
-// itself on the real code (build must fail with a *BuildError when anything
-// not supplied is referenced; at run time only recorded functions and the
-// print hook are executed), plus fixed probes outside the model.
+// source; every supplied function records its call. The importer is a list of
+// members (maps of packages and loaders that can fail) combined by
+// native.CombinedImporter. Histories (coq/model/ScopeHistM.v) make several
+// builds in one process on the same Globals map, package maps and loaders,
+// edited in place between the builds. Sweep: the property itself on the real
+// code (a build that references anything not supplied AT ITS CALL fails with a
+// *BuildError; at run time only functions supplied at the call of the build
+// and the print hook are executed; every build of a history equals the same
+// build made on fresh objects), plus fixed probes outside the model
+// (c19probes.go).
 
 import (
-	"bytes"
 	"context"
 	"errors"
 	"fmt"
@@ -21,7 +26,6 @@ import (
 	"strconv"
 	"strings"
 	"sync"
-	"syscall"
 	"time"
 	. "verif/harness/hlib"
 
@@ -29,12 +33,25 @@ import (
 	"github.com/open2b/scriggo/native"
 )
 
-// ---- abstract syntax (mirrors ScopeM.v)
+// ---- abstract syntax (mirrors ScopeM.v and ScopeHistM.v)
 
 type c19Pkg struct {
 	Path  int
 	Name  int
 	Decls [][2]int // name, native id
+}
+
+// what a member of the importer answers for a path: a package or an error
+// (a path without an answer is answered with nil, nil)
+type c19Ans struct {
+	Path int
+	Err  bool
+	Pkg  *c19Pkg `json:",omitempty"`
+}
+
+type c19Member struct {
+	Loader bool // a loader (an Importer that can return errors); otherwise a native.Packages map
+	Ans    []c19Ans
 }
 
 type c19Import struct {
@@ -50,14 +67,44 @@ type c19Stmt struct {
 	Body []c19Stmt
 }
 
-type c19Case struct {
+type c19Prog struct {
 	Allow    bool
 	Template bool
-	Pkgs    []c19Pkg
-	Globals [][2]int
-	Imports []c19Import
-	Funcs   []int
-	Body    []c19Stmt
+	Imports  []c19Import
+	Funcs    []int
+	Body     []c19Stmt
+}
+
+type c19Config struct {
+	Members  []c19Member
+	Combined bool     // the members are given as a native.CombinedImporter even if there is only one
+	Globals  [][2]int // name, native id
+	// kinds of the globals, parallel to Globals, sweep only: f function (default), v variable, c constant, t type
+	GlobalKinds []byte `json:",omitempty"`
+}
+
+type c19Case struct {
+	c19Config
+	c19Prog
+}
+
+type c19Edit struct {
+	Kind   byte // S globals[X] = value ID, D delete(globals, X), M member M answers Ans.Path with Ans (None: no longer)
+	X, ID  int
+	VKind  byte `json:",omitempty"`
+	M      int
+	Ans    c19Ans
+	None   bool
+}
+
+type c19Event struct {
+	Edit  *c19Edit `json:",omitempty"`
+	Build *c19Prog `json:",omitempty"`
+}
+
+type c19History struct {
+	c19Config
+	Events []c19Event
 }
 
 func identName(n int) string {
@@ -111,40 +158,165 @@ func pathNumber(s string) int {
 	return -1
 }
 
-func (k c19Case) encode() []string {
-	allow := "0"
-	if k.Allow {
-		allow = "1"
-	}
-	or := func(s string) string {
-		if s == "" {
-			return "-"
+// effective is the documented contract of native.CombinedImporter.Import
+// ("returns as soon as an importer returns a package", Importer: "if an error
+// occurs it returns the error, if the package does not exist it returns nil
+// and nil"): the answer of the first member that answers. member is -1 when no
+// member answers.
+func (cf c19Config) effective(path int) (ans c19Ans, member int) {
+	for i, m := range cf.Members {
+		for _, a := range m.Ans {
+			if a.Path == path {
+				return a, i
+			}
 		}
-		return s
 	}
-	decls := func(ds [][2]int) string {
-		var p []string
-		for _, d := range ds {
-			p = append(p, fmt.Sprintf("%d=%d", d[0], d[1]))
+	return c19Ans{Path: path}, -1
+}
+
+func (cf c19Config) clone() c19Config {
+	out := c19Config{Combined: cf.Combined}
+	for _, m := range cf.Members {
+		nm := c19Member{Loader: m.Loader}
+		for _, a := range m.Ans {
+			na := c19Ans{Path: a.Path, Err: a.Err}
+			if a.Pkg != nil {
+				pk := c19Pkg{Path: a.Pkg.Path, Name: a.Pkg.Name, Decls: append([][2]int(nil), a.Pkg.Decls...)}
+				na.Pkg = &pk
+			}
+			nm.Ans = append(nm.Ans, na)
 		}
-		return strings.Join(p, ",")
+		out.Members = append(out.Members, nm)
 	}
-	var imp, ims, fs []string
-	for _, p := range k.Pkgs {
-		imp = append(imp, fmt.Sprintf("%d:%d:%s", p.Path, p.Name, decls(p.Decls)))
+	out.Globals = append([][2]int(nil), cf.Globals...)
+	out.GlobalKinds = append([]byte(nil), cf.GlobalKinds...)
+	return out
+}
+
+func (cf c19Config) globalKind(i int) byte {
+	if i < len(cf.GlobalKinds) && cf.GlobalKinds[i] != 0 {
+		return cf.GlobalKinds[i]
 	}
-	for _, i := range k.Imports {
+	return 'f'
+}
+
+func (cf c19Config) onlyFunctions() bool {
+	for i := range cf.Globals {
+		if cf.globalKind(i) != 'f' {
+			return false
+		}
+	}
+	return true
+}
+
+// apply is the abstract effect of an edit (what the embedder's maps contain afterwards).
+func (cf *c19Config) apply(e c19Edit) {
+	switch e.Kind {
+	case 'S':
+		for len(cf.GlobalKinds) < len(cf.Globals) {
+			cf.GlobalKinds = append(cf.GlobalKinds, 'f')
+		}
+		k := e.VKind
+		if k == 0 {
+			k = 'f'
+		}
+		for i, g := range cf.Globals {
+			if g[0] == e.X {
+				cf.Globals[i][1] = e.ID
+				cf.GlobalKinds[i] = k
+				return
+			}
+		}
+		cf.Globals = append(cf.Globals, [2]int{e.X, e.ID})
+		cf.GlobalKinds = append(cf.GlobalKinds, k)
+	case 'D':
+		for len(cf.GlobalKinds) < len(cf.Globals) {
+			cf.GlobalKinds = append(cf.GlobalKinds, 'f')
+		}
+		for i, g := range cf.Globals {
+			if g[0] == e.X {
+				cf.Globals = append(cf.Globals[:i:i], cf.Globals[i+1:]...)
+				cf.GlobalKinds = append(cf.GlobalKinds[:i:i], cf.GlobalKinds[i+1:]...)
+				return
+			}
+		}
+	case 'M':
+		if e.M < 0 || e.M >= len(cf.Members) {
+			return
+		}
+		m := &cf.Members[e.M]
+		for i, a := range m.Ans {
+			if a.Path == e.Ans.Path {
+				if e.None {
+					m.Ans = append(m.Ans[:i:i], m.Ans[i+1:]...)
+				} else {
+					m.Ans[i] = e.Ans
+				}
+				return
+			}
+		}
+		if !e.None {
+			m.Ans = append(m.Ans, e.Ans)
+		}
+	}
+}
+
+// ---- wire format of the model driver (ocaml/drv_misc.ml)
+
+func orDash(s string) string {
+	if s == "" {
+		return "-"
+	}
+	return s
+}
+
+func declsText(ds [][2]int) string {
+	var p []string
+	for _, d := range ds {
+		p = append(p, fmt.Sprintf("%d=%d", d[0], d[1]))
+	}
+	return strings.Join(p, ",")
+}
+
+func ansText(a c19Ans, none bool) string {
+	switch {
+	case none:
+		return fmt.Sprintf("%d:-", a.Path)
+	case a.Err:
+		return fmt.Sprintf("%d:!", a.Path)
+	}
+	return fmt.Sprintf("%d:%d:%s", a.Path, a.Pkg.Name, declsText(a.Pkg.Decls))
+}
+
+func (cf c19Config) importerText() string {
+	if len(cf.Members) == 0 {
+		return "none"
+	}
+	var ms []string
+	for _, m := range cf.Members {
+		var as []string
+		for _, a := range m.Ans {
+			as = append(as, ansText(a, false))
+		}
+		ms = append(ms, orDash(strings.Join(as, ";")))
+	}
+	return strings.Join(ms, "|")
+}
+
+func (g c19Prog) fields() (imports, funcs, body string) {
+	var ims, fs []string
+	for _, i := range g.Imports {
 		ims = append(ims, fmt.Sprintf("%c:%d:%d", i.Form, i.Alias, i.Path))
 	}
-	for _, f := range k.Funcs {
+	for _, f := range g.Funcs {
 		fs = append(fs, strconv.Itoa(f))
 	}
-	var body func(b []c19Stmt) string
-	body = func(b []c19Stmt) string {
+	var bodyText func(b []c19Stmt) string
+	bodyText = func(b []c19Stmt) string {
 		var t []string
 		for _, s := range b {
 			if s.Kind == 'b' {
-				t = append(t, fmt.Sprintf("b %d [ %s ]", s.X, body(s.Body)))
+				t = append(t, fmt.Sprintf("b %d [ %s ]", s.X, bodyText(s.Body)))
 				continue
 			}
 			if s.Sel {
@@ -155,14 +327,46 @@ func (k c19Case) encode() []string {
 		}
 		return strings.Join(t, " ")
 	}
-	tmpl := "0"
-	if k.Template {
-		tmpl = "1"
-	}
-	return []string{"check", allow, tmpl, or(strings.Join(imp, ";")), or(decls(k.Globals)), or(strings.Join(ims, ";")), or(strings.Join(fs, ",")), or(body(k.Body))}
+	return orDash(strings.Join(ims, ";")), orDash(strings.Join(fs, ",")), orDash(bodyText(g.Body))
 }
 
-func (k c19Case) source() string {
+func flag01(b bool) string {
+	if b {
+		return "1"
+	}
+	return "0"
+}
+
+func (k c19Case) encode() []string {
+	imports, funcs, body := k.c19Prog.fields()
+	return []string{"check", flag01(k.Allow), flag01(k.Template), k.importerText(), orDash(declsText(k.Globals)), imports, funcs, body}
+}
+
+func (h c19History) encode() []string {
+	out := []string{"hist", h.importerText(), orDash(declsText(h.Globals))}
+	for _, ev := range h.Events {
+		switch {
+		case ev.Edit != nil:
+			e := ev.Edit
+			switch e.Kind {
+			case 'S':
+				out = append(out, fmt.Sprintf("G+%d=%d", e.X, e.ID))
+			case 'D':
+				out = append(out, fmt.Sprintf("G-%d", e.X))
+			case 'M':
+				out = append(out, fmt.Sprintf("M%d@%s", e.M, ansText(e.Ans, e.None)))
+			}
+		case ev.Build != nil:
+			imports, funcs, body := ev.Build.fields()
+			out = append(out, "B"+flag01(ev.Build.Allow)+flag01(ev.Build.Template)+"^"+imports+"^"+funcs+"^"+body)
+		}
+	}
+	return out
+}
+
+// ---- rendering as Scriggo source
+
+func (k c19Prog) source() string {
 	if k.Template {
 		return k.templateSource()
 	}
@@ -220,7 +424,7 @@ func (k c19Case) source() string {
 	return b.String()
 }
 
-func (k c19Case) templateSource() string {
+func (k c19Prog) templateSource() string {
 	var b strings.Builder
 	for _, i := range k.Imports {
 		switch i.Form {
@@ -268,12 +472,37 @@ func (k c19Case) templateSource() string {
 	return b.String()
 }
 
-// ---- recording natives and importer
+func (k c19Prog) hasGo() bool {
+	found := false
+	var walk func(b []c19Stmt)
+	walk = func(b []c19Stmt) {
+		for _, s := range b {
+			if s.Kind == 'g' {
+				found = true
+			}
+			walk(s.Body)
+		}
+	}
+	walk(k.Body)
+	return found
+}
+
+// ---- the embedder's live objects: recording natives, members, importer
 
 type recorder struct {
 	mu     sync.Mutex
 	called map[int]bool
 	asked  map[string]bool
+	// member index -> paths it was asked for, in this build
+	memberAsked map[int]map[string]bool
+}
+
+func (r *recorder) reset() {
+	r.mu.Lock()
+	r.called = map[int]bool{}
+	r.asked = map[string]bool{}
+	r.memberAsked = map[int]map[string]bool{}
+	r.mu.Unlock()
 }
 
 func (r *recorder) fn(id int) func() {
@@ -293,20 +522,195 @@ func (r *recorder) fnAny(id int) func(...any) {
 	}
 }
 
-type recImporter struct {
-	r    *recorder
-	pkgs map[string]native.Package
+type c19T struct{ F int }
+
+// value of a global declaration of the given kind
+func (r *recorder) value(name, id int, kind byte) native.Declaration {
+	switch kind {
+	case 'v':
+		v := id
+		return &v
+	case 'c':
+		return native.UntypedNumericConst(strconv.Itoa(id))
+	case 't':
+		return reflect.TypeOf(c19T{})
+	}
+	if name == 1 || name == 2 {
+		return r.fnAny(id)
+	}
+	return r.fn(id)
 }
 
-func (ri recImporter) Import(path string) (native.ImportablePackage, error) {
-	ri.r.mu.Lock()
-	ri.r.asked[path] = true
-	ri.r.mu.Unlock()
-	p, ok := ri.pkgs[path]
-	if !ok {
-		return nil, nil
+// loader is an importer of the embedder that can fail (a policy or a loader of packages).
+type loader struct {
+	pkgs map[string]native.Package
+	errs map[string]bool
+}
+
+func (l *loader) Import(path string) (native.ImportablePackage, error) {
+	if l.errs[path] {
+		return nil, fmt.Errorf("importer-veto %q", path)
 	}
-	return p, nil
+	if p, ok := l.pkgs[path]; ok {
+		return p, nil
+	}
+	return nil, nil
+}
+
+// recMember records what a member is asked and delegates.
+type recMember struct {
+	r     *recorder
+	index int
+	inner native.Importer
+}
+
+func (m recMember) Import(path string) (native.ImportablePackage, error) {
+	m.r.mu.Lock()
+	if m.r.memberAsked[m.index] == nil {
+		m.r.memberAsked[m.index] = map[string]bool{}
+	}
+	m.r.memberAsked[m.index][path] = true
+	m.r.mu.Unlock()
+	return m.inner.Import(path)
+}
+
+// recTop records what the configured importer is asked and delegates.
+type recTop struct {
+	r     *recorder
+	inner native.Importer
+}
+
+func (t recTop) Import(path string) (native.ImportablePackage, error) {
+	t.r.mu.Lock()
+	t.r.asked[path] = true
+	t.r.mu.Unlock()
+	return t.inner.Import(path)
+}
+
+// live holds the objects of one embedder process: they are created once and edited in place.
+type live struct {
+	rec     *recorder
+	globals native.Declarations
+	maps    []native.Packages // for the members that are maps
+	loaders []*loader         // for the members that are loaders
+	opts    *scriggo.BuildOptions
+}
+
+func (r *recorder) pkgValue(p *c19Pkg) native.Package {
+	d := native.Declarations{}
+	for _, dc := range p.Decls {
+		d[identName(dc[0])] = r.fn(dc[1])
+	}
+	return native.Package{Name: identName(p.Name), Declarations: d}
+}
+
+func newLive(cf c19Config) *live {
+	rec := &recorder{}
+	rec.reset()
+	lv := &live{rec: rec, globals: native.Declarations{}}
+	for i, g := range cf.Globals {
+		lv.globals[identName(g[0])] = rec.value(g[0], g[1], cf.globalKind(i))
+	}
+	var members []native.Importer
+	for i, m := range cf.Members {
+		lv.maps = append(lv.maps, nil)
+		lv.loaders = append(lv.loaders, nil)
+		var inner native.Importer
+		if m.Loader {
+			l := &loader{pkgs: map[string]native.Package{}, errs: map[string]bool{}}
+			for _, a := range m.Ans {
+				if a.Err {
+					l.errs[pathName(a.Path)] = true
+				} else {
+					l.pkgs[pathName(a.Path)] = rec.pkgValue(a.Pkg)
+				}
+			}
+			lv.loaders[i] = l
+			inner = l
+		} else {
+			pm := native.Packages{}
+			for _, a := range m.Ans {
+				if !a.Err {
+					pm[pathName(a.Path)] = rec.pkgValue(a.Pkg)
+				}
+			}
+			lv.maps[i] = pm
+			inner = pm
+		}
+		members = append(members, recMember{r: rec, index: i, inner: inner})
+	}
+	lv.opts = &scriggo.BuildOptions{Globals: lv.globals}
+	switch {
+	case len(members) == 0 && !cf.Combined:
+		// no importer at all
+	case len(members) == 1 && !cf.Combined:
+		lv.opts.Packages = recTop{r: rec, inner: members[0]}
+	default:
+		lv.opts.Packages = recTop{r: rec, inner: native.CombinedImporter(members)}
+	}
+	return lv
+}
+
+// edit changes the embedder's objects IN PLACE: the same Globals map, the same
+// package maps, the same Declarations map of a package that keeps its name.
+func (lv *live) edit(e c19Edit) {
+	switch e.Kind {
+	case 'S':
+		lv.globals[identName(e.X)] = lv.rec.value(e.X, e.ID, e.VKind)
+	case 'D':
+		delete(lv.globals, identName(e.X))
+	case 'M':
+		if e.M < 0 || e.M >= len(lv.maps) {
+			return
+		}
+		path := pathName(e.Ans.Path)
+		if l := lv.loaders[e.M]; l != nil {
+			delete(l.errs, path)
+			switch {
+			case e.None:
+				delete(l.pkgs, path)
+			case e.Ans.Err:
+				delete(l.pkgs, path)
+				l.errs[path] = true
+			default:
+				lv.setPackage(func() (native.Package, bool) { p, ok := l.pkgs[path]; return p, ok }, func(p native.Package) { l.pkgs[path] = p }, e.Ans.Pkg)
+			}
+			return
+		}
+		pm := lv.maps[e.M]
+		switch {
+		case e.None || e.Ans.Err:
+			delete(pm, path)
+		default:
+			lv.setPackage(func() (native.Package, bool) {
+				p, ok := pm[path]
+				if !ok {
+					return native.Package{}, false
+				}
+				return p.(native.Package), true
+			}, func(p native.Package) { pm[path] = p }, e.Ans.Pkg)
+		}
+	}
+}
+
+// setPackage: a package that keeps its name keeps its Declarations map, which is edited in place.
+func (lv *live) setPackage(get func() (native.Package, bool), set func(native.Package), pk *c19Pkg) {
+	if old, ok := get(); ok && old.Name == identName(pk.Name) {
+		want := map[string]int{}
+		for _, d := range pk.Decls {
+			want[identName(d[0])] = d[1]
+		}
+		for n := range old.Declarations {
+			if _, ok := want[n]; !ok {
+				delete(old.Declarations, n)
+			}
+		}
+		for n, id := range want {
+			old.Declarations[n] = lv.rec.fn(id)
+		}
+		return
+	}
+	set(lv.rec.pkgValue(pk))
 }
 
 type c19Result struct {
@@ -317,13 +721,18 @@ type c19Result struct {
 	printed bool
 	notBE   bool // the error is not a *BuildError
 	hostP   string
+	// member index -> paths asked
+	memberAsked map[int][]int
 }
 
 var reCFP = regexp.MustCompile(`cannot find package "([^"]*)"`)
 var reUnused = regexp.MustCompile(`imported and not used: "([^"]*)"`)
+var reVeto = regexp.MustCompile(`importer-veto "([^"]*)"`)
 
 func classify(msg string) string {
 	switch {
+	case reVeto.MatchString(msg):
+		return "imperr:" + strconv.Itoa(pathNumber(reVeto.FindStringSubmatch(msg)[1]))
 	case reCFP.MatchString(msg):
 		return "cfp:" + strconv.Itoa(pathNumber(reCFP.FindStringSubmatch(msg)[1]))
 	case strings.Contains(msg, "\"go\" statement not available"):
@@ -338,28 +747,16 @@ func classify(msg string) string {
 		return "redeclared"
 	case strings.Contains(msg, "undefined"):
 		return "undefined"
+	case strings.Contains(msg, "conversion"):
+		return "conversion"
 	}
 	return "other"
 }
 
-func runC19(k c19Case) (res c19Result) {
-	rec := &recorder{called: map[int]bool{}, asked: map[string]bool{}}
-	imp := recImporter{r: rec, pkgs: map[string]native.Package{}}
-	for _, p := range k.Pkgs {
-		d := native.Declarations{}
-		for _, dc := range p.Decls {
-			d[identName(dc[0])] = rec.fn(dc[1])
-		}
-		imp.pkgs[pathName(p.Path)] = native.Package{Name: identName(p.Name), Declarations: d}
-	}
-	globals := native.Declarations{}
-	for _, g := range k.Globals {
-		if g[0] == 1 || g[0] == 2 {
-			globals[identName(g[0])] = rec.fnAny(g[1])
-		} else {
-			globals[identName(g[0])] = rec.fn(g[1])
-		}
-	}
+// build builds and runs one program on the live objects.
+func (lv *live) build(k c19Prog) (res c19Result) {
+	rec := lv.rec
+	rec.reset()
 	defer func() {
 		if p := recover(); p != nil {
 			res.hostP = fmt.Sprint(p)
@@ -369,20 +766,36 @@ func runC19(k c19Case) (res c19Result) {
 	var prog *scriggo.Program
 	var tmpl *scriggo.Template
 	var err error
+	lv.opts.AllowGoStmt = k.Allow
+	src := k.source()
 	if k.Template {
-		tmpl, err = scriggo.BuildTemplate(scriggo.Files{"index.txt": []byte(k.source())}, "index.txt", &scriggo.BuildOptions{Packages: imp, Globals: globals, AllowGoStmt: k.Allow})
+		tmpl, err = scriggo.BuildTemplate(scriggo.Files{"index.txt": []byte(src)}, "index.txt", lv.opts)
 	} else {
-		prog, err = scriggo.Build(scriggo.Files{"main.go": []byte(k.source())}, &scriggo.BuildOptions{Packages: imp, Globals: globals, AllowGoStmt: k.Allow})
+		prog, err = scriggo.Build(scriggo.Files{"main.go": []byte(src)}, lv.opts)
 	}
+	rec.mu.Lock()
 	for p := range rec.asked {
 		res.asked = append(res.asked, pathNumber(p))
 	}
+	res.memberAsked = map[int][]int{}
+	for i, ps := range rec.memberAsked {
+		for p := range ps {
+			res.memberAsked[i] = append(res.memberAsked[i], pathNumber(p))
+		}
+		sort.Ints(res.memberAsked[i])
+	}
+	rec.mu.Unlock()
 	sort.Ints(res.asked)
 	if err != nil {
 		var be *scriggo.BuildError
 		res.notBE = !errors.As(err, &be)
 		res.raw = err.Error()
 		res.verdict = "err:" + classify(res.raw)
+		rec.mu.Lock()
+		for id := range rec.called {
+			res.called = append(res.called, id)
+		}
+		rec.mu.Unlock()
 		return res
 	}
 	res.verdict = "ok"
@@ -402,7 +815,7 @@ func runC19(k c19Case) (res c19Result) {
 	// goroutines started by go statements
 	want := 0
 	maxWait := 0
-	if strings.Contains(k.source(), "go ") {
+	if k.hasGo() {
 		maxWait = 40
 	}
 	for i := 0; i < maxWait; i++ {
@@ -423,6 +836,29 @@ func runC19(k c19Case) (res c19Result) {
 	sort.Ints(res.called)
 	res.printed = printed
 	return res
+}
+
+// runC19 is one build in a fresh process state: new maps, new functions, new options.
+func runC19(k c19Case) c19Result {
+	return newLive(k.c19Config).build(k.c19Prog)
+}
+
+// runC19History makes the builds of a history on one set of live objects;
+// it returns the result of every build and the contents of the maps at its call.
+func runC19History(h c19History) (results []c19Result, snaps []c19Case) {
+	lv := newLive(h.c19Config)
+	cur := h.c19Config.clone()
+	for _, ev := range h.Events {
+		switch {
+		case ev.Edit != nil:
+			lv.edit(*ev.Edit)
+			cur.apply(*ev.Edit)
+		case ev.Build != nil:
+			results = append(results, lv.build(*ev.Build))
+			snaps = append(snaps, c19Case{cur.clone(), *ev.Build})
+		}
+	}
+	return results, snaps
 }
 
 func intsText(l []int) string {
@@ -446,49 +882,149 @@ func (r c19Result) text() string {
 
 // ---- generation
 
-func genC19(c *Ctx) c19Case {
-	r := c.Rng
-	pick := func(l []int) int { return l[r.Intn(len(l))] }
-	var k c19Case
-	k.Allow = r.Intn(3) > 0
-	k.Template = r.Intn(2) == 0
-	paths := []int{10, 11, 12, 13, 3, 4, 5, 6, 7}
-	pkgNames := []int{20, 21, 22, 23, 3, 4, 7}
-	declNames := []int{1000, 1001, 1002, 1003}
-	nid := 500
+type c19Gen struct {
+	c   *Ctx
+	nid int
+}
+
+func (g *c19Gen) pick(l []int) int { return l[g.c.Rng.Intn(len(l))] }
+
+func (g *c19Gen) newID() int { g.nid++; return g.nid }
+
+var c19Paths = []int{10, 11, 12, 13, 3, 4, 5, 6, 7}
+var c19PkgNames = []int{20, 21, 22, 23, 3, 4, 7}
+var c19DeclNames = []int{1000, 1001, 1002, 1003}
+var c19GlobalNames = []int{30, 31, 32, 1000, 1001, 1, 2, 3, 4, 20, 21}
+
+func (g *c19Gen) pkg(path int) *c19Pkg {
+	r := g.c.Rng
+	pk := &c19Pkg{Path: path, Name: g.pick(c19PkgNames)}
+	seen := map[int]bool{}
+	for j := 1 + r.Intn(3); j > 0; j-- {
+		d := g.pick(c19DeclNames)
+		if !seen[d] {
+			seen[d] = true
+			pk.Decls = append(pk.Decls, [2]int{d, g.newID()})
+		}
+	}
+	return pk
+}
+
+// config: 0..3 packages spread over 0..3 members, with errors and shadowed duplicates
+func (g *c19Gen) config(combined bool) c19Config {
+	r := g.c.Rng
+	var cf c19Config
+	var pkgs []*c19Pkg
 	usedPath := map[int]bool{}
 	for i := r.Intn(4); i > 0; i-- {
-		p := pick(paths)
+		p := g.pick(c19Paths)
 		if usedPath[p] {
 			continue
 		}
 		usedPath[p] = true
-		pk := c19Pkg{Path: p, Name: pick(pkgNames)}
-		seen := map[int]bool{}
-		for j := 1 + r.Intn(3); j > 0; j-- {
-			d := pick(declNames)
-			if !seen[d] {
-				seen[d] = true
-				nid++
-				pk.Decls = append(pk.Decls, [2]int{d, nid})
+		pkgs = append(pkgs, g.pkg(p))
+	}
+	nm := 1
+	if combined {
+		nm = r.Intn(4) // 0 members: an empty CombinedImporter
+		cf.Combined = true
+	} else if len(pkgs) == 0 && r.Intn(3) == 0 {
+		nm = 0 // no importer
+	}
+	for i := 0; i < nm; i++ {
+		cf.Members = append(cf.Members, c19Member{Loader: combined && r.Intn(2) == 0})
+	}
+	if nm > 0 {
+		for _, pk := range pkgs {
+			m := r.Intn(nm)
+			cf.Members[m].Ans = append(cf.Members[m].Ans, c19Ans{Path: pk.Path, Pkg: pk})
+		}
+	}
+	if combined && nm > 0 {
+		// errors and duplicates, before and after the member that has the package
+		for i := r.Intn(4); i > 0; i-- {
+			p := g.pick(c19Paths)
+			if len(pkgs) > 0 && r.Intn(4) > 0 {
+				p = pkgs[r.Intn(len(pkgs))].Path
+			}
+			m := r.Intn(nm)
+			has := false
+			for _, a := range cf.Members[m].Ans {
+				has = has || a.Path == p
+			}
+			if has {
+				continue
+			}
+			if cf.Members[m].Loader && r.Intn(3) > 0 {
+				cf.Members[m].Ans = append(cf.Members[m].Ans, c19Ans{Path: p, Err: true})
+			} else {
+				cf.Members[m].Ans = append(cf.Members[m].Ans, c19Ans{Path: p, Pkg: g.pkg(p)})
 			}
 		}
-		k.Pkgs = append(k.Pkgs, pk)
 	}
-	globalNames := []int{30, 31, 32, 1000, 1001, 1, 2, 3, 4, 20, 21}
+	if combined && nm >= 2 && r.Intn(3) == 0 {
+		// the same path in two members, in both orders: a loader that fails for it and a member that has it
+		p := g.pick(c19Paths)
+		if len(pkgs) > 0 && r.Intn(2) == 0 {
+			p = pkgs[r.Intn(len(pkgs))].Path
+		}
+		i := r.Intn(nm - 1)
+		j := i + 1 + r.Intn(nm-1-i)
+		errAt, pkgAt := i, j
+		if r.Intn(3) == 0 {
+			errAt, pkgAt = j, i
+		}
+		cf.Members[errAt].Loader = true
+		for _, mi := range []int{errAt, pkgAt} {
+			m := &cf.Members[mi]
+			for k := 0; k < len(m.Ans); k++ {
+				if m.Ans[k].Path == p {
+					m.Ans = append(m.Ans[:k:k], m.Ans[k+1:]...)
+					k--
+				}
+			}
+		}
+		cf.Members[errAt].Ans = append(cf.Members[errAt].Ans, c19Ans{Path: p, Err: true})
+		cf.Members[pkgAt].Ans = append(cf.Members[pkgAt].Ans, c19Ans{Path: p, Pkg: g.pkg(p)})
+	}
 	seenG := map[int]bool{}
 	for i := r.Intn(4); i > 0; i-- {
-		g := pick(globalNames)
-		if !seenG[g] {
-			seenG[g] = true
-			nid++
-			k.Globals = append(k.Globals, [2]int{g, nid})
+		n := g.pick(c19GlobalNames)
+		if !seenG[n] {
+			seenG[n] = true
+			cf.Globals = append(cf.Globals, [2]int{n, g.newID()})
+		}
+	}
+	return cf
+}
+
+// program generates a program for the configuration cf; refs of the
+// configuration old (what was supplied earlier in the history) are used as well.
+func (g *c19Gen) program(cf c19Config, old *c19Config, template bool) c19Prog {
+	r := g.c.Rng
+	var k c19Prog
+	k.Allow = r.Intn(3) > 0
+	k.Template = template
+	// paths that some member has something for
+	var have []int
+	seenP := map[int]bool{}
+	for _, cfg := range []*c19Config{&cf, old} {
+		if cfg == nil {
+			continue
+		}
+		for _, m := range cfg.Members {
+			for _, a := range m.Ans {
+				if !seenP[a.Path] {
+					seenP[a.Path] = true
+					have = append(have, a.Path)
+				}
+			}
 		}
 	}
 	for i := r.Intn(4); i > 0; i-- {
-		p := pick(paths)
-		if len(k.Pkgs) > 0 && r.Intn(3) > 0 {
-			p = k.Pkgs[r.Intn(len(k.Pkgs))].Path
+		p := g.pick(c19Paths)
+		if len(have) > 0 && r.Intn(3) > 0 {
+			p = have[r.Intn(len(have))]
 		}
 		dup := false
 		for _, prev := range k.Imports {
@@ -504,7 +1040,7 @@ func genC19(c *Ctx) c19Case {
 			}
 		}
 		if im.Form == 'n' {
-			im.Alias = pick(pkgNames)
+			im.Alias = g.pick(c19PkgNames)
 		}
 		k.Imports = append(k.Imports, im)
 	}
@@ -514,40 +1050,58 @@ func genC19(c *Ctx) c19Case {
 	}
 	seenF := map[int]bool{}
 	for i := r.Intn(3); i > 0; i-- {
-		f := pick(funcNames)
+		f := g.pick(funcNames)
 		if !seenF[f] {
 			seenF[f] = true
 			k.Funcs = append(k.Funcs, f)
 		}
 	}
-	// references: mostly things that exist
+	// references: mostly things that exist (now, or earlier in the history)
 	var idents, sels [][2]int
-	for _, g := range k.Globals {
-		if k.Template || r.Intn(4) == 0 {
-			idents = append(idents, [2]int{0, g[0]})
+	for _, cfg := range []*c19Config{&cf, old} {
+		if cfg == nil {
+			continue
 		}
-	}
-	for _, f := range k.Funcs {
-		idents = append(idents, [2]int{0, f})
-	}
-	idents = append(idents, [2]int{0, 1}, [2]int{0, 2})
-	for _, im := range k.Imports {
-		for _, p := range k.Pkgs {
-			if p.Path != im.Path {
+		for _, gl := range cfg.Globals {
+			if k.Template || r.Intn(4) == 0 {
+				idents = append(idents, [2]int{0, gl[0]})
+			}
+		}
+		for _, im := range k.Imports {
+			a, _ := cfg.effective(im.Path)
+			// mostly the package the import gives; sometimes one that an earlier member shadows or vetoes
+			if a.Pkg == nil || r.Intn(4) == 0 {
+				var shadowed []c19Ans
+				for _, m := range cfg.Members {
+					for _, b := range m.Ans {
+						if b.Path == im.Path && b.Pkg != nil {
+							shadowed = append(shadowed, b)
+						}
+					}
+				}
+				if len(shadowed) > 0 {
+					a = shadowed[r.Intn(len(shadowed))]
+				}
+			}
+			if a.Pkg == nil {
 				continue
 			}
-			for _, d := range p.Decls {
+			for _, d := range a.Pkg.Decls {
 				switch im.Form {
 				case 'p':
 					idents = append(idents, [2]int{0, d[0]})
 				case 'd':
-					sels = append(sels, [2]int{p.Name, d[0]})
+					sels = append(sels, [2]int{a.Pkg.Name, d[0]})
 				case 'n':
 					sels = append(sels, [2]int{im.Alias, d[0]})
 				}
 			}
 		}
 	}
+	for _, f := range k.Funcs {
+		idents = append(idents, [2]int{0, f})
+	}
+	idents = append(idents, [2]int{0, 1}, [2]int{0, 2})
 	localNames := []int{50, 51, 30, 20, 21, 2, 1000, 3}
 	var gen func(depth int) []c19Stmt
 	gen = func(depth int) []c19Stmt {
@@ -556,13 +1110,13 @@ func genC19(c *Ctx) c19Case {
 			kind := "cccdg"[r.Intn(5)]
 			switch x := r.Intn(12); {
 			case x == 0 && depth < 2:
-				out = append(out, c19Stmt{Kind: 'b', X: pick(localNames), Body: gen(depth + 1)})
+				out = append(out, c19Stmt{Kind: 'b', X: g.pick(localNames), Body: gen(depth + 1)})
 			case x == 1:
 				// something that is not supplied
 				if r.Intn(2) == 0 {
-					out = append(out, c19Stmt{Kind: kind, X: pick([]int{60, 3, 4, 5, 6, 7, 1003, 20})})
+					out = append(out, c19Stmt{Kind: kind, X: g.pick([]int{60, 3, 4, 5, 6, 7, 1003, 20})})
 				} else {
-					out = append(out, c19Stmt{Kind: kind, Sel: true, P: pick(append(pkgNames, 30, 50)), X: pick(append(declNames, 1009))})
+					out = append(out, c19Stmt{Kind: kind, Sel: true, P: g.pick(append(append([]int{}, c19PkgNames...), 30, 50)), X: g.pick(append(append([]int{}, c19DeclNames...), 1009))})
 				}
 			case x < 7 && len(sels) > 0:
 				s := sels[r.Intn(len(sels))]
@@ -585,24 +1139,297 @@ func genC19(c *Ctx) c19Case {
 	return k
 }
 
-func c19Inputs(c *Ctx, f func(k c19Case)) {
+func genC19(c *Ctx) c19Case {
+	g := &c19Gen{c: c, nid: 500}
+	cf := g.config(c.Rng.Intn(3) == 0)
+	return c19Case{cf, g.program(cf, nil, c.Rng.Intn(2) == 0)}
+}
+
+// genC19History: builds interleaved with in-place edits of the Globals map and
+// of the members of the importer. The typical round withdraws something that
+// the previous program used and supplies something else in its place, so that
+// the number of entries of the edited map does not change.
+func genC19History(c *Ctx, kinds bool) c19History {
+	r := c.Rng
+	g := &c19Gen{c: c, nid: 500}
+	cf := g.config(r.Intn(2) == 0)
+	template := r.Intn(4) > 0
+	if template && len(cf.Globals) == 0 {
+		cf.Globals = append(cf.Globals, [2]int{g.pick(c19GlobalNames), g.newID()})
+	}
+	h := c19History{c19Config: cf.clone()}
+	cur := cf.clone()
+	prog := g.program(cur, nil, template)
+	h.Events = append(h.Events, c19Event{Build: &prog})
+	vkinds := []byte{'f', 'f', 'f', 'v', 'c', 't'}
+	for round := 1 + r.Intn(3); round > 0; round-- {
+		old := cur.clone()
+		for ne := 1 + r.Intn(3); ne > 0; ne-- {
+			var eds []c19Edit
+			switch x := r.Intn(7); {
+			case x <= 1 && len(cur.Globals) > 0:
+				// withdraw a global, supply another (equal length)
+				del := cur.Globals[r.Intn(len(cur.Globals))][0]
+				add := g.pick(c19GlobalNames)
+				for tries := 0; tries < 8; tries++ {
+					clash := add == del
+					for _, gl := range cur.Globals {
+						clash = clash || gl[0] == add
+					}
+					if !clash {
+						break
+					}
+					add = g.pick(c19GlobalNames)
+				}
+				eds = append(eds, c19Edit{Kind: 'D', X: del}, c19Edit{Kind: 'S', X: add, ID: g.newID(), VKind: 'f'})
+			case x <= 3 && len(cur.Globals) > 0:
+				// replace the value of a global
+				e := c19Edit{Kind: 'S', X: cur.Globals[r.Intn(len(cur.Globals))][0], ID: g.newID(), VKind: 'f'}
+				if kinds {
+					e.VKind = vkinds[r.Intn(len(vkinds))]
+				}
+				eds = append(eds, e)
+			case x == 4:
+				// a new global, or one less
+				if len(cur.Globals) > 0 && r.Intn(2) == 0 {
+					eds = append(eds, c19Edit{Kind: 'D', X: cur.Globals[r.Intn(len(cur.Globals))][0]})
+				} else {
+					eds = append(eds, c19Edit{Kind: 'S', X: g.pick(c19GlobalNames), ID: g.newID(), VKind: 'f'})
+				}
+			default:
+				if len(cur.Members) == 0 {
+					continue
+				}
+				m := r.Intn(len(cur.Members))
+				mem := cur.Members[m]
+				if len(mem.Ans) > 0 && r.Intn(4) > 0 {
+					a := mem.Ans[r.Intn(len(mem.Ans))]
+					switch y := r.Intn(5); {
+					case y == 0:
+						// the path is withdrawn, another one is supplied (equal length)
+						np := g.pick(c19Paths)
+						eds = append(eds, c19Edit{Kind: 'M', M: m, Ans: c19Ans{Path: a.Path}, None: true})
+						if q, _ := (c19Config{Members: []c19Member{mem}}).effective(np); q.Pkg == nil && !q.Err {
+							eds = append(eds, c19Edit{Kind: 'M', M: m, Ans: c19Ans{Path: np, Pkg: g.pkg(np)}})
+						}
+					case y == 1 && mem.Loader:
+						// the loader starts failing for the path (or stops)
+						eds = append(eds, c19Edit{Kind: 'M', M: m, Ans: c19Ans{Path: a.Path, Err: !a.Err, Pkg: func() *c19Pkg {
+							if a.Err {
+								return g.pkg(a.Path)
+							}
+							return nil
+						}()}})
+					case a.Pkg != nil && y <= 3:
+						// the declarations of the package change in place: same names, other functions; one name less, one more
+						pk := &c19Pkg{Path: a.Path, Name: a.Pkg.Name}
+						for i, d := range a.Pkg.Decls {
+							if i == 0 && len(a.Pkg.Decls) > 1 && r.Intn(2) == 0 {
+								continue
+							}
+							pk.Decls = append(pk.Decls, [2]int{d[0], g.newID()})
+						}
+						if r.Intn(2) == 0 {
+							n := g.pick(c19DeclNames)
+							dup := false
+							for _, d := range pk.Decls {
+								dup = dup || d[0] == n
+							}
+							if !dup {
+								pk.Decls = append(pk.Decls, [2]int{n, g.newID()})
+							}
+						}
+						eds = append(eds, c19Edit{Kind: 'M', M: m, Ans: c19Ans{Path: a.Path, Pkg: pk}})
+					default:
+						// another package at the same path
+						eds = append(eds, c19Edit{Kind: 'M', M: m, Ans: c19Ans{Path: a.Path, Pkg: g.pkg(a.Path)}})
+					}
+				} else {
+					p := g.pick(c19Paths)
+					if mem.Loader && r.Intn(3) == 0 {
+						eds = append(eds, c19Edit{Kind: 'M', M: m, Ans: c19Ans{Path: p, Err: true}})
+					} else {
+						eds = append(eds, c19Edit{Kind: 'M', M: m, Ans: c19Ans{Path: p, Pkg: g.pkg(p)}})
+					}
+				}
+			}
+			for i := range eds {
+				e := eds[i]
+				if e.Kind == 'M' && e.Ans.Err && !cur.Members[e.M].Loader {
+					continue // a map of packages cannot fail
+				}
+				cur.apply(e)
+				h.Events = append(h.Events, c19Event{Edit: &e})
+			}
+		}
+		// the same program again (it may use what was withdrawn), or a new one that knows the old and the new names
+		if r.Intn(2) == 0 {
+			again := prog
+			h.Events = append(h.Events, c19Event{Build: &again})
+		}
+		if r.Intn(3) > 0 {
+			prog = g.program(cur, &old, template)
+			p2 := prog
+			h.Events = append(h.Events, c19Event{Build: &p2})
+		}
+	}
+	if h.Events[len(h.Events)-1].Build == nil {
+		again := prog
+		h.Events = append(h.Events, c19Event{Build: &again})
+	}
+	return h
+}
+
+// c19Inputs calls single for single builds and hist for histories.
+func c19Inputs(c *Ctx, kinds bool, single func(k c19Case), hist func(h c19History)) {
 	if in := c.ReplayInput(); in != nil {
 		if js, ok := in["case"].(string); ok {
 			var k c19Case
 			if err := jsonUnmarshal(js, &k); err == nil {
-				f(k)
+				single(k)
+			}
+		}
+		if js, ok := in["history"].(string); ok {
+			var h c19History
+			if err := jsonUnmarshal(js, &h); err == nil {
+				hist(h)
 			}
 		}
 		return
 	}
 	for i := 0; i < c.N; i++ {
-		f(genC19(c))
+		if i%4 == 3 {
+			hist(genC19History(c, kinds && i%8 == 7))
+		} else {
+			single(genC19(c))
+		}
 	}
 }
 
+// evalC19 evaluates the property on one build: k is the contents of the
+// embedder's maps at the call of the build together with the program, res what
+// the implementation did. It reports at most one failure.
+func evalC19(c *Ctx, k c19Case, res c19Result, det map[string]any) (ok bool) {
+	det["source"] = k.source()
+	det["result"] = res.text()
+	det["message"] = res.raw
+	// what the embedder supplies for this program, at this build
+	supplied := map[int]bool{}
+	if k.Template {
+		for i, g := range k.Globals {
+			if k.globalKind(i) == 'f' {
+				supplied[g[1]] = true
+			}
+		}
+	}
+	owner := map[int]string{}
+	for mi, m := range k.Members {
+		for _, a := range m.Ans {
+			if a.Pkg != nil {
+				for _, d := range a.Pkg.Decls {
+					owner[d[1]] = fmt.Sprintf("%s.%s of the package that member %d has for %q", identName(a.Pkg.Name), identName(d[0]), mi, pathName(a.Path))
+				}
+			}
+		}
+	}
+	known := map[int]bool{}
+	vetoed := map[int]int{}
+	for _, im := range k.Imports {
+		a, mi := k.effective(im.Path)
+		switch {
+		case a.Err:
+			vetoed[im.Path] = mi
+		case a.Pkg != nil:
+			known[im.Path] = true
+			for _, d := range a.Pkg.Decls {
+				supplied[d[1]] = true
+			}
+		}
+	}
+	if res.verdict == "host-panic" {
+		det["panic"] = res.hostP
+		c.Fail("host-panic", det)
+		return false
+	}
+	for _, id := range res.called {
+		if !supplied[id] {
+			what := owner[id]
+			if what == "" {
+				what = "a function that is no longer (or not) in the Globals map"
+			}
+			det["why"] = fmt.Sprintf("native %d executed but not supplied to this program at this build: %s", id, what)
+			c.Fail("unsupplied-native-executed", det)
+			return false
+		}
+	}
+	if res.verdict == "ok" {
+		for _, im := range k.Imports {
+			if mi, bad := vetoed[im.Path]; bad {
+				det["why"] = fmt.Sprintf("builds although member %d of the importer returns an error for %q and no earlier member has it", mi, pathName(im.Path))
+				c.Fail("vetoed-import-accepted", det)
+				return false
+			}
+			if !known[im.Path] {
+				det["why"] = fmt.Sprintf("builds although the importer does not know %q", pathName(im.Path))
+				c.Fail("unknown-import-accepted", det)
+				return false
+			}
+		}
+		if k.hasGo() && !k.Allow {
+			det["why"] = "builds with a go statement although AllowGoStmt is false"
+			c.Fail("go-without-option", det)
+			return false
+		}
+	} else {
+		if res.notBE {
+			det["why"] = "the build error is not a *BuildError"
+			c.Fail("not-a-build-error", det)
+			return false
+		}
+		if len(res.called) > 0 {
+			det["why"] = "a native was executed although the build failed"
+			c.Fail("unsupplied-native-executed", det)
+			return false
+		}
+	}
+	// the importer is asked only for paths that are imported
+	imported := map[int]bool{}
+	for _, im := range k.Imports {
+		imported[im.Path] = true
+	}
+	for _, p := range res.asked {
+		if !imported[p] {
+			det["why"] = fmt.Sprintf("the importer was asked for %q which the program does not import", pathName(p))
+			c.Fail("importer-asked-unimported", det)
+			return false
+		}
+	}
+	// a member is not consulted for a path that an earlier member answered: host code (the member's Import)
+	// that the documented contract does not run. Kept back: reported only if the run finds no executed native.
+	for mi, ps := range res.memberAsked {
+		for _, p := range ps {
+			if _, first := k.effective(p); first >= 0 && first < mi {
+				if c19Deferred == nil {
+					d2 := map[string]any{}
+					for key, v := range det {
+						d2[key] = v
+					}
+					d2["why"] = fmt.Sprintf("member %d of the combined importer was asked for %q although member %d had answered", mi, pathName(p), first)
+					c19Deferred = d2
+				}
+				return false
+			}
+		}
+	}
+	return true
+}
+
+// the first member-asked-after-answer observation of the run
+var c19Deferred map[string]any
+
 func init() {
 	Register("C19-cases", func(c *Ctx) {
-		c19Inputs(c, func(k c19Case) {
+		c19Inputs(c, false, func(k c19Case) {
 			res := runC19(k)
 			fields := append(k.encode(), res.text())
 			c.Line(fields...)
@@ -611,295 +1438,75 @@ func init() {
 			}
 			c.Count("cases")
 			c.Count("verdict:" + strings.SplitN(res.verdict, ":", 3)[0] + ":" + strings.SplitN(strings.TrimPrefix(res.verdict, "err:"), ":", 2)[0])
+		}, func(h c19History) {
+			results, _ := runC19History(h)
+			var texts []string
+			for _, r := range results {
+				texts = append(texts, r.text())
+				c.Count("verdict:" + strings.SplitN(r.verdict, ":", 3)[0] + ":" + strings.SplitN(strings.TrimPrefix(r.verdict, "err:"), ":", 2)[0])
+			}
+			c.Line(append(h.encode(), strings.Join(texts, " / "))...)
+			if os.Getenv("C19_DEBUG") != "" {
+				fmt.Fprintf(os.Stderr, "%s\t%s\n", strings.Join(texts, " / "), jsonMarshal(h))
+			}
+			c.Count("cases")
+			c.Count("histories")
+			c.Add("history-builds", len(results))
 		})
 	})
 
 	Register("C19-sweep", func(c *Ctx) {
 		shown := 0
-		c19Inputs(c, func(k c19Case) {
+		c19Inputs(c, true, func(k c19Case) {
 			c.Count("evaluations")
 			res := runC19(k)
-			det := map[string]any{"case": jsonMarshal(k), "source": k.source(), "result": res.text(), "message": res.raw}
-			// what the embedder supplies for this program
-			supplied := map[int]bool{}
-			if k.Template {
-				for _, g := range k.Globals {
-					supplied[g[1]] = true
-				}
-			}
-			known := map[int]bool{}
-			for _, p := range k.Pkgs {
-				known[p.Path] = true
-				for _, im := range k.Imports {
-					if im.Path == p.Path {
-						for _, d := range p.Decls {
-							supplied[d[1]] = true
-						}
-					}
-				}
-			}
-			if res.verdict == "host-panic" {
-				det["panic"] = res.hostP
-				c.Fail("host-panic", det)
+			det := map[string]any{"case": jsonMarshal(k)}
+			if !evalC19(c, k, res, det) {
 				return
 			}
-			hasGo := false
-			var walk func(b []c19Stmt)
-			walk = func(b []c19Stmt) {
-				for _, s := range b {
-					if s.Kind == 'g' {
-						hasGo = true
-					}
-					walk(s.Body)
-				}
-			}
-			walk(k.Body)
 			if res.verdict == "ok" {
-				for _, im := range k.Imports {
-					if !known[im.Path] {
-						det["why"] = fmt.Sprintf("builds although the importer does not know %q", pathName(im.Path))
-						c.Fail("unknown-import-accepted", det)
-						return
-					}
-				}
-				if hasGo && !k.Allow {
-					det["why"] = "builds with a go statement although AllowGoStmt is false"
-					c.Fail("go-without-option", det)
-					return
-				}
-				for _, id := range res.called {
-					if !supplied[id] {
-						det["why"] = fmt.Sprintf("native %d executed but not supplied to this program", id)
-						c.Fail("unsupplied-native-executed", det)
-						return
-					}
-				}
 				c.Count("nontrivial")
 				if shown < 3 && len(res.called) > 1 {
 					shown++
 					c.Sample(map[string]any{"source": k.source(), "called": res.called, "asked": res.asked})
 				}
-			} else {
-				if res.notBE {
-					det["why"] = "the build error is not a *BuildError"
-					c.Fail("not-a-build-error", det)
+			}
+		}, func(h c19History) {
+			c.Count("histories")
+			results, snaps := runC19History(h)
+			for i, res := range results {
+				c.Count("evaluations")
+				c.Count("history-builds")
+				det := map[string]any{"history": jsonMarshal(h), "build": i, "maps-at-this-build": jsonMarshal(snaps[i].c19Config)}
+				if !evalC19(c, snaps[i], res, det) {
 					return
 				}
-				if len(res.called) > 0 {
-					det["why"] = "a native was executed although the build failed"
-					c.Fail("unsupplied-native-executed", det)
+				// the same build on fresh objects (new maps, new functions): same verdict, same natives, same questions
+				fresh := runC19(snaps[i])
+				if fresh.text() != res.text() {
+					det["why"] = fmt.Sprintf("build %d of the history gives %s, the same build on fresh objects with the same contents gives %s (%s)", i, res.text(), fresh.text(), fresh.raw)
+					det["fresh"] = fresh.text()
+					c.Fail("history-build-differs", det)
+					return
+				}
+				if res.verdict == "ok" {
+					c.Count("nontrivial")
 				}
 			}
-			// the importer is asked only for paths that are imported
-			imported := map[int]bool{}
-			for _, im := range k.Imports {
-				imported[im.Path] = true
-			}
-			for _, p := range res.asked {
-				if !imported[p] {
-					det["why"] = fmt.Sprintf("the importer was asked for %q which the program does not import", pathName(p))
-					c.Fail("importer-asked-unimported", det)
+			if shown < 4 && len(results) > 2 {
+				shown++
+				var texts []string
+				for _, r := range results {
+					texts = append(texts, r.text())
 				}
+				c.Sample(map[string]any{"history": h.encode(), "results": texts})
 			}
 		})
+		if c19Deferred != nil && c.Stats["failures"] == 0 {
+			c.Fail("member-asked-after-answer", c19Deferred)
+		}
 		if c.ReplayInput() == nil {
 			c19Probes(c)
 		}
 	})
-}
-
-// ---- fixed probes outside the model
-
-type probeT struct{ N int }
-
-var probeCalled = map[string]int{}
-
-func (p probeT) Get() int  { probeCalled["probeT.Get"]++; return p.N }
-func (p *probeT) Set(n int) { probeCalled["probeT.Set"]++; p.N = n }
-
-func c19Probes(c *Ctx) {
-	mark := func(name string) { probeCalled[name]++ }
-	pkgs := native.Packages{
-		"host": native.Package{Name: "host", Declarations: native.Declarations{
-			"T":    reflect.TypeOf(probeT{}),
-			"New":  func(n int) *probeT { mark("host.New"); return &probeT{n} },
-			"V":    &probeT{5},
-			"Call": func(f func() int) int { mark("host.Call"); return f() },
-		}},
-		"reflect": native.Package{Name: "reflect", Declarations: native.Declarations{
-			"ValueOf": func(v any) reflect.Value { mark("reflect.ValueOf"); return reflect.ValueOf(v) },
-			"Value":   reflect.TypeOf(reflect.Value{}),
-		}},
-	}
-	type probe struct {
-		name     string
-		template bool
-		files    map[string]string
-		packages native.Importer
-		wantErr  string   // substring of the expected build error ("" = must build)
-		calls    []string // natives that must have been executed, exactly (besides methods of supplied types)
-		noHook   bool
-	}
-	noPkgs := native.Packages{}
-	probes := []probe{
-		{name: "unsafe-not-supplied", files: map[string]string{"main.go": "package main\nimport \"unsafe\"\nfunc main() { var x int; _ = unsafe.Pointer(&x) }\n"}, packages: pkgs, wantErr: "cannot find package \"unsafe\""},
-		{name: "unsafe-pointer-conversion", files: map[string]string{"main.go": "package main\nfunc main() { var x int; p := (*float64)(unsafe.Pointer(&x)); _ = p }\n"}, packages: pkgs, wantErr: "undefined: unsafe"},
-		{name: "pointer-conversion", files: map[string]string{"main.go": "package main\nfunc main() { var x int; p := (*float64)(&x); _ = p }\n"}, packages: pkgs, wantErr: "cannot convert"},
-		{name: "uintptr-conversion", files: map[string]string{"main.go": "package main\nfunc main() { var x int; p := uintptr(&x); _ = p }\n"}, packages: pkgs, wantErr: "cannot convert"},
-		{name: "os-not-supplied", files: map[string]string{"main.go": "package main\nimport \"os\"\nfunc main() { os.Exit(3) }\n"}, packages: pkgs, wantErr: "cannot find package \"os\""},
-		{name: "os-without-import", files: map[string]string{"main.go": "package main\nfunc main() { os.Exit(3) }\n"}, packages: pkgs, wantErr: "undefined: os"},
-		{name: "syscall-runtime", files: map[string]string{"main.go": "package main\nimport \"syscall\"\nimport \"runtime\"\nfunc main() { _ = syscall.Getpid(); runtime.GC() }\n"}, packages: pkgs, wantErr: "cannot find package"},
-		{name: "nil-importer", files: map[string]string{"main.go": "package main\nimport \"host\"\nfunc main() { _ = host.New(1) }\n"}, packages: nil, wantErr: "cannot find package \"host\""},
-		{name: "method-values", files: map[string]string{"main.go": "package main\nimport \"host\"\nfunc main() { t := host.New(2); f := t.Get; t.Set(7); println(f(), host.Call(t.Get), host.V.Get()) }\n"}, packages: pkgs, calls: []string{"host.New", "host.Call", "probeT.Get", "probeT.Set"}},
-		{name: "reflect-supplied", files: map[string]string{"main.go": "package main\nimport \"reflect\"\nimport \"host\"\nfunc main() { v := reflect.ValueOf(host.V); m := v.MethodByName(\"Get\"); r := m.Call(nil); println(r[0].Int()) }\n"}, packages: pkgs, calls: []string{"reflect.ValueOf", "probeT.Get"}},
-		{name: "reflect-not-supplied", files: map[string]string{"main.go": "package main\nimport \"reflect\"\nfunc main() { _ = reflect.ValueOf(1) }\n"}, packages: native.Packages{"host": pkgs["host"]}, wantErr: "cannot find package \"reflect\""},
-		{name: "go-not-allowed", files: map[string]string{"main.go": "package main\nfunc main() { go func() {}() }\n"}, packages: pkgs, wantErr: "\"go\" statement not available"},
-		{name: "print-hook", files: map[string]string{"main.go": "package main\nfunc main() { print(\"a\", 1); println(\"b\") }\n"}, packages: noPkgs},
-		{name: "print-stderr", files: map[string]string{"main.go": "package main\nfunc main() { print(\"a\", 1); println(\"b\") }\n"}, packages: noPkgs, noHook: true},
-		{name: "template-import-native-missing", template: true, files: map[string]string{"index.html": "{% import \"os\" %}{{ os.Getpid() }}"}, packages: pkgs, wantErr: "cannot find package \"os\""},
-		{name: "template-extends-missing", template: true, files: map[string]string{"index.html": "{% extends \"os\" %}"}, packages: pkgs, wantErr: "not exist"},
-		{name: "template-extends-native", template: true, files: map[string]string{"index.html": "{% extends \"host\" %}"}, packages: pkgs, wantErr: "not exist"},
-		{name: "template-render-native", template: true, files: map[string]string{"index.html": "{{ render \"host\" }}"}, packages: pkgs, wantErr: "not exist"},
-		{name: "template-import-native", template: true, files: map[string]string{"index.html": "{% import \"host\" %}{{ host.New(3).Get() }}"}, packages: pkgs, calls: []string{"host.New", "probeT.Get"}},
-		{name: "template-import-go-file", template: true, files: map[string]string{"index.html": "{% import \"lib.go\" %}x", "lib.go": "package lib\nimport \"os\"\nfunc F() { os.Exit(1) }\n"}, packages: pkgs, wantErr: ""},
-	}
-	for _, p := range probes {
-		c.Count("evaluations")
-		c.Count("probes")
-		for k := range probeCalled {
-			delete(probeCalled, k)
-		}
-		det := map[string]any{"probe": p.name, "files": p.files}
-		var hooked bytes.Buffer
-		var stderr string
-		var berr, rerr error
-		hostPanic := PanicText(func() {
-			opts := &scriggo.BuildOptions{Packages: p.packages}
-			ropts := &scriggo.RunOptions{}
-			if !p.noHook {
-				ropts.Print = func(v any) { fmt.Fprint(&hooked, v) }
-			}
-			stderr = captureStderr(func() {
-				if p.template {
-					var t *scriggo.Template
-					t, berr = scriggo.BuildTemplate(toFiles(p.files), "index.html", opts)
-					if berr == nil {
-						rerr = t.Run(io.Discard, nil, ropts)
-					}
-				} else {
-					var pr *scriggo.Program
-					pr, berr = scriggo.Build(toFiles(p.files), opts)
-					if berr == nil {
-						rerr = pr.Run(ropts)
-					}
-				}
-			})
-		})
-		if hostPanic != "" {
-			det["panic"] = hostPanic
-			c.Fail("host-panic:probe", det)
-			continue
-		}
-		if p.name == "template-import-go-file" {
-			// whatever the verdict, nothing of the host may have run and os must not be reachable
-			if berr == nil && rerr == nil && len(probeCalled) == 0 {
-				c.Count("nontrivial")
-			} else if berr != nil {
-				c.Count("nontrivial")
-			}
-			continue
-		}
-		if p.wantErr != "" {
-			var be *scriggo.BuildError
-			switch {
-			case berr == nil:
-				det["why"] = "builds although it references something that is not supplied"
-				c.Fail("probe-accepted:"+p.name, det)
-			case !strings.Contains(berr.Error(), p.wantErr):
-				det["why"] = "unexpected error: " + berr.Error()
-				c.Fail("probe-error:"+p.name, det)
-			case !errors.As(berr, &be) && !errors.Is(berr, os.ErrNotExist):
-				det["why"] = "not a *BuildError: " + berr.Error()
-				c.Fail("not-a-build-error", det)
-			case len(probeCalled) > 0:
-				det["why"] = "natives executed although the build failed"
-				c.Fail("unsupplied-native-executed", det)
-			default:
-				c.Count("nontrivial")
-			}
-			continue
-		}
-		if berr != nil || rerr != nil {
-			det["why"] = fmt.Sprintf("expected to build and run: %v / %v", berr, rerr)
-			c.Fail("probe-error:"+p.name, det)
-			continue
-		}
-		want := map[string]bool{}
-		for _, n := range p.calls {
-			want[n] = true
-		}
-		bad := ""
-		for n := range probeCalled {
-			if !want[n] {
-				bad = "executed " + n + " which the program does not reference"
-			}
-		}
-		for n := range want {
-			if probeCalled[n] == 0 {
-				bad = n + " was not executed"
-			}
-		}
-		switch p.name {
-		case "print-hook":
-			if hooked.Len() == 0 || stderr != "" {
-				bad = fmt.Sprintf("print/println with a hook: hook got %q, stderr got %q", hooked.String(), stderr)
-			}
-		case "print-stderr":
-			if !strings.Contains(stderr, "a") || !strings.Contains(stderr, "b") {
-				bad = fmt.Sprintf("print/println without a hook must write to standard error, got %q", stderr)
-			}
-		}
-		if bad != "" {
-			det["why"] = bad
-			c.Fail("probe-behaviour:"+p.name, det)
-			continue
-		}
-		c.Count("nontrivial")
-	}
-}
-
-var stderrMu sync.Mutex
-
-// captureStderr redirects file descriptor 2 (and os.Stderr) to a pipe while f runs.
-func captureStderr(f func()) string {
-	stderrMu.Lock()
-	defer stderrMu.Unlock()
-	r, w, err := os.Pipe()
-	if err != nil {
-		f()
-		return ""
-	}
-	saved, err := syscall.Dup(2)
-	if err != nil {
-		f()
-		return ""
-	}
-	old := os.Stderr
-	syscall.Dup2(int(w.Fd()), 2)
-	os.Stderr = w
-	done := make(chan string)
-	go func() {
-		b, _ := io.ReadAll(r)
-		done <- string(b)
-	}()
-	func() {
-		defer func() {
-			syscall.Dup2(saved, 2)
-			syscall.Close(saved)
-			os.Stderr = old
-			w.Close()
-		}()
-		f()
-	}()
-	return <-done
 }
